@@ -78,6 +78,7 @@ LiveBlocks(tbs, txs, h, i) ==
 NoIds(t) == [t EXCEPT !.data = [i \in 0..t.mask |-> IF t.data[i] = NoElem THEN NoElem
                                                    ELSE <<t.data[i][1], 0, t.data[i][3], 0, t.data[i][5], t.data[i][6]>>]]
 KVH(A) == {<<x[1], x[3], x[5], x[6]>> : x \in A}
+NoIdsH(t) == [t EXCEPT !.data = [i \in 0..t.mask |-> IF t.data[i] = NoElem THEN NoElem ELSE <<t.data[i][1], 0, t.data[i][3], 0, 0, 0>>]]
 IdCount(A) == Cardinality({x \in A : x[2] > 0}) + Cardinality({x \in A : x[4] > 0})
 
 ---------------------------------------------------------------------------
@@ -145,7 +146,7 @@ Init == /\ l = 1
         /\ hd = [W |-> W]
         /\ tb = <<>> /\ tx = <<>> /\ ab = <<>>
         /\ lk = [ids |-> {}, blocks |-> <<>>]
-        /\ TLCSet(42, 0) /\ TLCSet(43, <<>>) /\ TLCSet(44, 0) /\ TLCSet(45, <<>>) /\ TLCSet(46, 0) /\ TLCSet(47, <<>>)
+        /\ TLCSet(42, 0) /\ TLCSet(43, <<>>) /\ TLCSet(44, 0) /\ TLCSet(45, <<>>) /\ TLCSet(46, 0) /\ TLCSet(47, <<>>) /\ TLCSet(48, 0) /\ TLCSet(49, 0)
         /\ ok = TRUE
 
 Fail(line, what) == IF TLCGet(43) = <<>> THEN TLCSet(43, <<line, what>>) ELSE TRUE
@@ -299,9 +300,10 @@ OpStep(e) ==
              \cup (IF ~chkAbs THEN {<<"contents differ from the abstract specification", opp>>} ELSE {})
              \cup (IF ~chkDrops THEN {<<"dropped elements differ from the abstract specification", {"C03", "C04"}>>} ELSE {})
              \cup (IF ~chkLen THEN {<<"len()/capacity() contract", {"C08"} \cup opp>>} ELSE {})
-             \cup (IF ~chkAlloc THEN {<<"allocator ledger / allocation_size", {"C03", "C08", "C13"}>>} ELSE {})
+             \cup (IF ~chkAlloc THEN {<<"allocator ledger / allocation_size", {"C03", "C08", "C13"} \cup (IF e.op = "drain" THEN {"C10"} ELSE {})>>} ELSE {})
              \cup (IF ~chkNoAlloc THEN {<<"allocation although len < capacity", {"C08"}>>} ELSE {})
-             \cup (IF ~chkReserve THEN {<<"capacity contract of " \o e.op, {"C08"} \cup (IF e.op = "try_reserve" THEN {"C12"} ELSE {})>>} ELSE {})
+             \cup (IF ~chkReserve THEN {<<"capacity contract of " \o e.op, {"C08"} \cup (IF e.op = "try_reserve" THEN {"C12"} ELSE {})
+                                                                              \cup (IF e.op = "drain" THEN {"C10"} ELSE {})>>} ELSE {})
       mine == {b \in bad : PROP = "ALL" \/ PROP \in b[2]}
       sane == invStruct = {} /\ invFind = {}
       \* ---------- STRICT (drift only)
@@ -340,12 +342,147 @@ OpStep(e) ==
      /\ ok' = sane
      /\ UNCHANGED hd
 
+(***************************************************************************)
+(* A call during which an injected callback panic unwound (C04).  The       *)
+(* abstract outcome is a SET of allowed states: the collection must be      *)
+(* valid, every element it held (or was handed) is still present, was       *)
+(* dropped exactly once, or was moved out to the caller - a leak is allowed *)
+(* only when the panic came out of a destructor - and a hasher panic while  *)
+(* the table is being grown into a new allocation leaves it unchanged.      *)
+(***************************************************************************)
+FaultClasses == {"hash", "eq", "clone", "drop", "bh_clone"}
+IdsOfY(e) == Ids(UNION {{y[2], y[4]} : y \in {z \in SeqToSet(e.y) : Len(z) >= 4 /\ z[1] # -7 /\ z[1] # -9}})
+KI(S) == {<<x[1], x[2]>> : x \in S}
+RECURSIVE SeqMinus(_, _)
+SeqMinus(s, r) ==   \* bag difference of sequences
+  IF r = <<>> THEN s
+  ELSE LET i == CHOOSE i \in 1..Len(s) : s[i] = Head(r)
+       IN SeqMinus(SubSeq(s, 1, i - 1) \o SubSeq(s, i + 1, Len(s)), Tail(r))
+IsSubBag(r, s) == \A x \in SeqToSet(r) : Count(r, x) <= Count(s, x)
+
+FaultStep(e) ==
+  LET t == e.t
+      u == e.u
+      pre == tb[t]
+      A == ab[t]
+      obsT == [i \in 1..hd.nt |-> ObsTable(e.s[i], hd.es)]
+      obsX == [i \in 1..hd.nt |-> ObsX(e.s[i])]
+      live == {i \in 1..hd.nt : obsX[i].lv}
+      ph == PlanFn(hd, tx[t].pl)
+      allBefore == UNION {AllIds(ab[i]) : i \in 1..hd.nt} \cup Ids({e.id, e.vid})
+                   \cup (IF e.op = "extend" THEN IdsOfY(e) ELSE {})
+      present == UNION {AllIds(Elems(obsT[i])) : i \in live}
+      dropped == SeqToSet(e.dr)
+      movedOut == IF e.op \in {"drain", "extract_if", "into_iter", "t_extract_if"} THEN IdsOfY(e) ELSE {}
+      unacc == allBefore \ (present \cup dropped \cup movedOut)        \* neither present nor dropped nor moved out = leaked
+      invd == UNION {InvDiag(obsT[i], FALSE, hd.kind # "table") : i \in live}
+      expectedLive == lk.blocks \o LiveBlocks(obsT, obsX, hd, 1)
+      extra == IF IsSubBag(expectedLive, e.bl) THEN SeqMinus(e.bl, expectedLive) ELSE <<>>
+      grew == \E i \in 1..Len(e.al) : e.al[i][1] = 1
+      touched == {t} \cup (IF e.op \in {"clone"} THEN {u} ELSE {})
+      bad ==
+           {<<"after a callback panic: " \o m, {"C04", "C02"}>> : m \in invd}
+        \cup (IF \E i \in live : obsX[i].len # Cardinality(Elems(obsT[i])) \/ obsX[i].cap < obsX[i].len
+             THEN {<<"after a callback panic: len() differs from the number of stored elements", {"C04"}>>} ELSE {})
+        \cup (IF hd.tr = 1 /\ (~NoDupSeq(e.dr) \/ dropped \cap present # {})
+             THEN {<<"after a callback panic: an element was dropped twice or dropped while still stored", {"C04", "C03", "C02"}>>} ELSE {})
+        \cup (IF hd.tr = 1 /\ unacc # {} /\ e.pn # "drop"
+             THEN {<<"after a callback panic: an element is neither stored nor dropped (leak without a destructor panic)", {"C04", "C03"}>>} ELSE {})
+        \cup (IF \E i \in live \ touched : i <= Len(ab) /\ tx[i].lv /\ Elems(obsT[i]) # ab[i]
+             THEN {<<"after a callback panic: a collection not involved in the call changed", {"C04", "C11"}>>} ELSE {})
+        \cup (IF t \in live /\ e.op \notin {"clone_from", "xor_assign", "or_assign", "new", "with_capacity"}
+                /\ ~(KI(Elems(obsT[t])) \subseteq KI(A) \cup {<<e.k, e.id>>} \cup {<<y[1], y[2]>> : y \in SeqToSet(e.y)})
+             THEN {<<"after a callback panic: the collection holds an element it never contained", {"C04"}>>} ELSE {})
+        \cup (IF e.pn = "hash" /\ grew /\ t \in live /\ e.op \notin {"clone_from", "extend"} /\ KI(Elems(obsT[t])) # KI(A)
+             THEN {<<"hasher panic while growing into a new allocation changed the contents", {"C04"}>>} ELSE {})
+        \cup (IF ~IsSubBag(expectedLive, e.bl) THEN {<<"after a callback panic: a block of a live table is missing from the allocator ledger", {"C04", "C03", "C02"}>>} ELSE {})
+        \cup (IF extra # <<>> /\ e.pn # "drop" THEN {<<"after a callback panic: an allocator block leaked without a destructor panic", {"C04", "C03"}>>} ELSE {})
+        \cup (IF e.pn # e.fa THEN {<<"a different panic than the injected one: " \o e.pn, {"C04", "C02"}>>} ELSE {})
+      sel == IF e.op \in {"retain", "extract_if", "t_extract_if", "drain"} THEN {"C10"} ELSE {}
+      mine == {b \in bad : PROP = "ALL" \/ PROP \in (b[2] \cup sel)}
+      \* STRICT: the fault-aware concrete operator reproduces the post-unwind state (hasher panics of map operations)
+      strictKnown == e.pn = "hash" /\ hd.kind = "map" /\ e.op \notin {"clone", "clone_from", "eq", "get_many_mut", "get_many_kv_mut", "iter", "drop"}
+      expR == MapOp(e, pre, ph, [pa |-> e.fk, hs |-> <<>>])
+      strictOK == strictKnown => (expR.st = "unwound" /\ (t \in live => expR.t = obsT[t]))
+  IN /\ IF mine # {} THEN Fail(l, {b[1] : b \in mine}) ELSE TRUE
+     /\ IF bad # {} /\ mine = {} THEN TLCSet(46, TLCGet(46) + 1) /\ (IF TLCGet(47) = <<>> THEN TLCSet(47, <<l, e.op, {b[1] : b \in bad}>>) ELSE TRUE) ELSE TRUE
+     /\ IF bad = {} /\ ok /\ ~strictOK THEN TLCSet(42, TLCGet(42) + 1) /\ (IF TLCGet(45) = <<>> THEN TLCSet(45, <<l, e.op>>) ELSE TRUE) ELSE TRUE
+     /\ TLCSet(44, TLCGet(44) + 1) /\ TLCSet(48, TLCGet(48) + 1)
+     /\ tb' = obsT /\ tx' = obsX
+     /\ ab' = [i \in 1..hd.nt |-> IF obsX[i].lv THEN Elems(obsT[i]) ELSE {}]
+     /\ lk' = [ids |-> lk.ids \cup unacc, blocks |-> lk.blocks \o extra]
+     /\ ok' = (invd = {})
+     /\ UNCHANGED hd
+
+(***************************************************************************)
+(* A call made with an UNLAWFUL hasher / equality (C05): results are        *)
+(* unspecified, but the safety subset of the invariant must hold, len()     *)
+(* must equal the number of stored elements, and every element is either    *)
+(* still stored, was dropped exactly once, or was moved out to the caller.  *)
+(* STRICT: the concrete operators, fed with the logged hash answers,        *)
+(* reproduce the observed state (hash chaos with a lawful Eq only).         *)
+(***************************************************************************)
+SafeDiag(t) ==
+  IF ~I1(t) THEN {"I1 shape"} ELSE
+  (IF I2(t) THEN {} ELSE {"I2 mirror bytes"}) \cup (IF I3(t) THEN {} ELSE {"I3 items = number of FULL bytes"})
+  \cup (IF I4(t) THEN {} ELSE {"I4 an EMPTY bucket exists"}) \cup (IF I5(t, FALSE) THEN {} ELSE {"I5 growth_left accounting"})
+  \cup (IF I9(t) THEN {} ELSE {"I9 FULL <=> slot holds an element"})
+\* elements as (identity) multiset: under an unlawful hasher equal keys may be stored several times
+ChaosStep(e) ==
+  LET t == e.t
+      pre == tb[t]
+      obsT == [i \in 1..hd.nt |-> ObsTable(e.s[i], hd.es)]
+      obsX == [i \in 1..hd.nt |-> ObsX(e.s[i])]
+      live == {i \in 1..hd.nt : obsX[i].lv}
+      before == UNION {AllIds(ab[i]) : i \in 1..hd.nt} \cup Ids({e.id, e.vid})
+                \cup (IF e.op = "extend" THEN IdsOfY(e) ELSE {})
+      present == UNION {AllIds(Elems(obsT[i])) : i \in live}
+      dropped == SeqToSet(e.dr)
+      movedOut == IF e.op \in {"drain", "extract_if", "into_iter", "t_extract_if", "remove", "remove_entry", "insert", "e_remove",
+                               "e_remove_entry", "rc_remove", "re_remove", "e_occ_insert", "e_into_key", "try_insert", "take", "replace"}
+                  THEN before \ (present \cup dropped) ELSE {}      \* returned to the caller (dropped by the harness after the call)
+      forgot == e.op = "drain" /\ e.n = 1
+      unacc == before \ (present \cup dropped \cup movedOut)
+      fresh == present \ before                                     \* clones
+      sd == UNION {SafeDiag(obsT[i]) : i \in live}
+      expectedLive == lk.blocks \o LiveBlocks(obsT, obsX, hd, 1)
+      extra == IF IsSubBag(expectedLive, e.bl) THEN SeqMinus(e.bl, expectedLive) ELSE <<>>
+      bad ==
+           {<<"unlawful Hash/Eq: " \o m, {"C05", "C02"}>> : m \in sd}
+        \cup (IF \E i \in live : obsX[i].len # obsT[i].items \/ obsX[i].len # Cardinality(FullIdx(obsT[i]))
+             THEN {<<"unlawful Hash/Eq: len() differs from the number of stored elements", {"C05"}>>} ELSE {})
+        \cup (IF hd.tr = 1 /\ (~NoDupSeq(e.dr) \/ dropped \cap present # {})
+             THEN {<<"unlawful Hash/Eq: an element was dropped twice or dropped while still stored", {"C05", "C02"}>>} ELSE {})
+        \cup (IF hd.tr = 1 /\ unacc # {} /\ ~forgot
+             THEN {<<"unlawful Hash/Eq: an element is neither stored nor dropped", {"C05"}>>} ELSE {})
+        \cup (IF ~IsSubBag(expectedLive, e.bl) \/ (extra # <<>> /\ ~forgot)
+             THEN {<<"unlawful Hash/Eq: allocator ledger does not match the live tables", {"C05", "C02"}>>} ELSE {})
+        \cup (IF e.pn \notin {"", "index", "dup", "noteq"} THEN {<<"unlawful Hash/Eq: unexpected panic " \o e.pn, {"C05", "C02"}>>} ELSE {})
+      mine == {b \in bad : PROP = "ALL" \/ PROP \in b[2]}
+      hs == [i \in 1..Len(e.hl) |-> [pos |-> e.hl[i][1], tag |-> e.hl[i][2]]]
+      strictKnown == hd.kind = "map" /\ e.el = <<>> /\ e.pn = "" /\ Len(e.hl) >= 1
+                     /\ e.op \in {"insert", "remove", "remove_entry", "e_or_insert", "e_insert", "e_remove", "rc_or_insert", "rc_insert",
+                                   "reserve", "shrink_to", "shrink_to_fit", "try_insert", "e_replace_none", "rc_remove", "rc_vacant_drop"}
+      expT == MapOp(e, pre, [k \in {e.k} |-> hs[1]], [pa |-> 0, hs |-> hs]).t
+      strictOK == strictKnown => NoIdsH(expT) = NoIdsH(obsT[t])
+  IN /\ IF mine # {} THEN Fail(l, {b[1] : b \in mine}) ELSE TRUE
+     /\ IF bad # {} /\ mine = {} THEN TLCSet(46, TLCGet(46) + 1) /\ (IF TLCGet(47) = <<>> THEN TLCSet(47, <<l, e.op, {b[1] : b \in bad}>>) ELSE TRUE) ELSE TRUE
+     /\ IF bad = {} /\ ok /\ ~strictOK THEN TLCSet(42, TLCGet(42) + 1) /\ (IF TLCGet(45) = <<>> THEN TLCSet(45, <<l, e.op>>) ELSE TRUE) ELSE TRUE
+     /\ TLCSet(44, TLCGet(44) + 1) /\ IF strictKnown THEN TLCSet(49, TLCGet(49) + 1) ELSE TRUE
+     /\ tb' = obsT /\ tx' = obsX
+     /\ ab' = [i \in 1..hd.nt |-> IF obsX[i].lv THEN Elems(obsT[i]) ELSE {}]
+     /\ lk' = [ids |-> lk.ids \cup (IF forgot THEN unacc ELSE {}), blocks |-> lk.blocks \o extra]
+     /\ ok' = (sd = {})
+     /\ UNCHANGED hd
+
 Next == /\ l <= Len(Rec)
         /\ TLCGet(43) = <<>>
         /\ l' = l + 1
         /\ LET e == Rec[l]
            IN CASE e.op = "reset" -> ResetStep(e)
                 [] e.op = "end" -> EndStep(e)
+                [] hd.mode = "chaos" -> ChaosStep(e)
+                [] e.pn \in FaultClasses -> FaultStep(e)
                 [] OTHER -> OpStep(e)
 
 Spec == Init /\ [][Next]_tvars
@@ -356,7 +493,7 @@ Accepted ==
       consumed == TLCGet("stats").diameter = Len(Rec) + 1
       res == [steps |-> TLCGet(44), lines |-> Len(Rec), drift |-> TLCGet(42),
               firstdrift |-> IF TLCGet(45) = <<>> THEN <<>> ELSE <<ToString(TLCGet(45)[1]), TLCGet(45)[2]>>,
-              foreign |-> TLCGet(46),
+              foreign |-> TLCGet(46), faults |-> TLCGet(48), chaosstrict |-> TLCGet(49),
               firstforeign |-> IF TLCGet(47) = <<>> THEN <<>> ELSE <<ToString(TLCGet(47)[1]), TLCGet(47)[2]>> \o SetToSeqStr(TLCGet(47)[3]),
               rejected |-> IF rej # <<>> THEN 1 ELSE IF ~consumed THEN 2 ELSE 0,
               line |-> IF rej # <<>> THEN rej[1] ELSE TLCGet("stats").diameter,
